@@ -9,6 +9,8 @@ META = {
     "technique": "Lean 4 theorems over every 64-bit hash value, island count, depth and folders-per-level (hash function abstract) + "
                  "go/ast fact tie over both name packages + differential run of both Go packages incl. crafted short-hash names",
     "text": ("Lean theorems Hv.C20.island_range / island_range_server (1 <= island <= N), island_sdk_eq_server (N <= 65535), "
+             "route_partition / every_name_routed (when the configured server ranges partition 1..N the client's table routes every island, "
+             "hence every name, to exactly one configured server), "
              "path_no_panic_iff (the level loop does not panic iff depth = 0 or (depth-1)*charsPerLevel <= len of the unpadded %x "
              "rendering), path_no_panic_default (the shipped depth <= 1 never panics, for every hash value), location_inj (equal "
              "locations imply equal hash values: injective modulo hash collisions), distinct_names_distinct_paths (separator-free "
@@ -16,9 +18,10 @@ META = {
              "witnesses deep_layout_panics, short_hash_witness, canon_collision; classify_sound ties the decision to the facts."),
     "note": ("Trusted: Lean kernel (propext, Classical.choice, Quot.sound); extract/c20.go; harness/c20.go; the Lean xxhash64 is used only "
              "by the driver and is differential-tested against cespare/xxhash on every run (no theorem depends on it). Injectivity of "
-             "locations is modulo collisions of the 64-bit hash (pigeonhole makes the literal statement false for any hash). The client "
-             "routing table (client.go ranges) is not modelled. Per-object caches: idempotent for a fixed N; a different N on the same "
-             "name object returns the cached island (modelled and compared, not counted as a finding)."),
+             "locations is modulo collisions of the 64-bit hash (pigeonhole makes the literal statement false for any hash). Routing: all "
+             "configured servers are assumed reachable; the real client is exercised over loopback TLS stub servers. Per-object caches: idempotent for a fixed N; a different N on the same "
+             "name object returns the cached island (finding C20-island-cache-stale). N = 0 is excluded from every claim: both packages "
+             "panic with an integer divide by zero (theorem island_zero_panics, confirmed by op `n ... 0 ...`)."),
     "design_ref": "§8 C20",
 }
 
@@ -26,7 +29,12 @@ FINDINGS = {
     "C20-slice-out-of-range": "generateHashedDirectoryPath clamps only `end`: when (depth-1)*charsPerLevel exceeds the length of the "
                               "unpadded %x hash the slice hashHex[start:end] panics (e.g. depth 6 with 70000 folders per level: [20:16]; "
                               "or any depth >= 2 for a name whose hash renders short)",
-    "C20-separator-collision": "name parts may contain '/': (\"a/b\",\"c\",\"d\") and (\"a\",\"b/c\",\"d\") have the same canonical path and the same location",
+    "C20-separator-collision": "name parts may contain '/' in both name packages: (\"a/b\",\"c\",\"d\") and (\"a\",\"b/c\",\"d\") have the same canonical path and "
+                               "the same location (no longer reachable through the gateway, which now refuses names without exactly three non-empty parts)",
+    "C20-routing-unvalidated": "the SDK client accepts any server ranges: an island of 1..allIslands that no range covers has no route "
+                               "(GetServiceClient returns nil), an island covered twice silently goes to the later entry",
+    "C20-island-cache-stale": "GetIslandID / GetFolderNumber memoise the first island on the name object and return it for ANY later island "
+                              "count: users/profiles/alice answers 956 for N=1000 and still 956 when asked for N=5",
     "C20-island-off-by-one": "island number is 0-based, out of 1..N, or differs between SDK and server",
     "C20-default-config-panics": "the shipped depth / folders-per-level lets a crafted swamp name panic the path computation",
 }
@@ -52,14 +60,41 @@ def oracle(rep):
                 return ("C20-slice-out-of-range", "GetFullHashPath panicked for depth=%d foldersPerLevel=%s (`%s`)" % (depth, f[6], op))
             if kv.get("again") != "same":
                 return (None, "a second call on the same name object returned something else (`%s`)" % op)
+        elif f[0] == "n2":
+            kv = _kv(line)
+            for side in ("sdk", "srv"):
+                got, fresh = kv.get(side, ",!").split(",")[1].split("!")
+                if got != fresh:
+                    return ("C20-island-cache-stale", "%s: second call on the same name object for N=%s answers %s, a fresh object answers %s (`%s`)"
+                            % (side, f[5], got, fresh, op))
+        elif f[0] == "chain":
+            if not line.endswith("fresh=true"):
+                return (None, "a name built step by step answers differently from a freshly built one (`%s` -> %s)" % (op, line))
+        elif f[0] == "routes":
+            N = int(f[1])
+            rs = [] if f[2] == "-" else [tuple(int(x) for x in r.split("-")) for r in f[2].split(",")]
+            cover = {i: [j for j, (a, b) in enumerate(rs) if a <= i <= b] for i in range(1, N + 1)}
+            got = dict(c.split(":") for c in line.split(",")) if ":" in line else {}
+            if all(len(v) == 1 for v in cover.values()):
+                want = {str(i): str(v[0]) for i, v in cover.items()}
+                if got != want:
+                    return (None, "ranges %s partition 1..%d but the client routes %s" % (f[2], N, line))
+            elif line != "err":
+                bad = [i for i, v in cover.items() if len(v) != 1][0]
+                return ("C20-routing-unvalidated", "client accepted ranges %s for %d islands: island %d is covered by %d entries and routed to %s"
+                        % (f[2], N, bad, len(cover[bad]), got.get(str(bad))))
         elif f[0] == "pair":
+            unhex = lambda h: b"" if h == "-" else bytes.fromhex(h)
+            if f[1:4] != f[4:7] and line.endswith(" same") and b"/".join(map(unhex, f[1:4])) != b"/".join(map(unhex, f[4:7])):
+                return (None, "two names with DIFFERENT canonical paths resolve to the same location (`%s` -> %s)" % (op, line))
             if f[1:4] != f[4:7] and line.endswith(" same"):
                 return ("C20-separator-collision", "two different triples resolve to the same location (`%s` -> %s)" % (op, line))
     return None
 
 
 def spec_violated(rep):
-    r = oracle(rep)
+    # ops of this domain are independent: judge the op at which model and implementation part ways
+    r = oracle({"ops": rep["ops"][-1:], "impl": rep["impl"][-1:]})
     return r[1] if r else None
 
 
@@ -72,15 +107,15 @@ def run(ctx):
     K.report_mismatch(ctx, spec_violated)
     c = corrs[0][2] if corrs else K.Corr()
     hits = 0
-    if corrs and not c.mismatch:
+    if corrs:
         # one op per "case" for the oracle: ops are independent
         for i, (op, line) in enumerate(zip(c.ops, c.impl)):
             r = oracle({"ops": [op], "impl": [line]})
             if r:
                 hits += 1
                 fid, text = r
-                if fid and fid in getattr(ctx, "confirmed", {}):
-                    continue
+                if fid and (fid in getattr(ctx, "confirmed", {}) or fid in K.known_ids(ctx.pid)):
+                    continue   # a recorded finding (reported by decide_standard when the model predicts it)
                 ctx.violation("implementation violates the property: " + text,
                               {"correspondence": "C20", "drv_args": corrs[0][1], "ops": [op], "impl": [line],
                                "model": [c.model[i] if i < len(c.model) else "<missing>"]}, tag=fid or "impl")
